@@ -110,7 +110,7 @@ def run(argv):
                 rows.append((sid, meta["property"], "STALE patch does not apply"))
                 continue
             env = dict(os.environ, CURTSIES_REPO=wt, VERIF_REPLAY_DIR=os.path.join(d, "replays"))
-            cmd = [os.path.join(VERIF, "check"), meta["property"], "--tier", tier, "--no-evidence", "--quiet"]
+            cmd = [os.path.join(VERIF, "check"), meta["property"], "--tier", tier, "--no-evidence", "--quiet", "--fast"]
             if runs:
                 cmd += ["--runs", runs]
             t0 = time.time()
